@@ -193,14 +193,26 @@ func hasProblem(ev *c03Eval, key string) *c03Problem {
 
 // c03Shrink drops directories, files and lines while the problem with the given key persists.
 func c03Shrink(ctx *Ctx, dir string, tree map[string]fileState, cfg wrConfig, key string, budget int) map[string]fileState {
+	ev, _, err := c03RunOnce(ctx, dir, tree, cfg)
+	if err != nil || hasProblem(ev, key) == nil {
+		return tree
+	}
+	return shrinkTree(tree, cfg.Cwd, hasProblem(ev, key).File, budget, func(cand map[string]fileState) bool {
+		ev, _, err := c03RunOnce(ctx, dir, cand, cfg)
+		return err == nil && hasProblem(ev, key) != nil
+	})
+}
+
+// shrinkTree drops directories and files outside the infrastructure, then lines of
+// the offending file (last to first), while fails(candidate) stays true.
+func shrinkTree(tree map[string]fileState, cwd, file string, budget int, fails func(map[string]fileState) bool) map[string]fileState {
 	cur := tree
 	try := func(cand map[string]fileState) bool {
 		if budget <= 0 {
 			return false
 		}
 		budget--
-		ev, _, err := c03RunOnce(ctx, dir, cand, cfg)
-		return err == nil && hasProblem(ev, key) != nil
+		return fails(cand)
 	}
 	without := func(m map[string]fileState, prefix string) map[string]fileState {
 		out := map[string]fileState{}
@@ -212,12 +224,6 @@ func c03Shrink(ctx *Ctx, dir string, tree map[string]fileState, cfg wrConfig, ke
 		}
 		return out
 	}
-	ev, _, err := c03RunOnce(ctx, dir, cur, cfg)
-	if err != nil || hasProblem(ev, key) == nil {
-		return cur
-	}
-	file := hasProblem(ev, key).File
-	// 1. whole package directories and single files outside the infrastructure
 	for _, rel := range sortedKeys(cur) {
 		if _, still := cur[rel]; !still || rel == "." || rel == file || strings.HasPrefix(file, rel+"/") {
 			continue
@@ -225,7 +231,7 @@ func c03Shrink(ctx *Ctx, dir string, tree map[string]fileState, cfg wrConfig, ke
 		if strings.HasPrefix(rel, "mk") || strings.HasPrefix(rel, "doc") || strings.HasPrefix(rel, "licenses") {
 			continue
 		}
-		if strings.HasPrefix(cfg.Cwd+"/", rel+"/") {
+		if strings.HasPrefix(filepath.Clean(cwd)+"/", rel+"/") {
 			continue
 		}
 		cand := without(cur, rel)
@@ -233,7 +239,6 @@ func c03Shrink(ctx *Ctx, dir string, tree map[string]fileState, cfg wrConfig, ke
 			cur = cand
 		}
 	}
-	// 2. lines of the offending file, last to first
 	if st, ok := cur[file]; ok && st.Kind == "f" {
 		ls := strings.SplitAfter(st.Data, "\n")
 		for i := len(ls) - 1; i >= 0 && budget > 0; i-- {
